@@ -130,6 +130,15 @@ pub fn scripts(seed: u64) -> Vec<Script> {
             ],
         },
         Script {
+            name: "sorenson: I tr=7, disposable tr=7 (same temporal reference), P all-not-coded",
+            opts: 1,
+            calls: vec![
+                a(encode_bytes(&noise_intra(shdr(32, 16, 0, 7, 6, 0), seed ^ 10))),
+                a(p_pic(shdr(32, 16, 2, 7, 6, 0), &[Spec::Intra, Spec::Inter((4, -4), false)], 2)),
+                a(all_nc(shdr(32, 16, 1, 8, 6, 0))),
+            ],
+        },
+        Script {
             name: "sorenson: I 16x16, P 16x16 all-not-coded, I 32x16",
             opts: 1,
             calls: vec![a(encode_bytes(&noise_intra(shdr(16, 16, 0, 0, 12, 1), seed ^ 6))), a(encode_bytes(&Pic { hdr: shdr(16, 16, 1, 1, 12, 1), mbs: vec![Mb::NotCoded] })), a(encode_bytes(&noise_intra(shdr(32, 16, 0, 2, 12, 0), seed ^ 7)))],
@@ -495,7 +504,7 @@ pub fn run(tier: Tier) -> Report {
     rep.extra("fresh_process_runs", json!(n_child));
     // 16 fresh instances in one process (each HashMap gets its own RandomState): sampling of seeds
     for (i, s) in all.iter().enumerate() {
-        for _ in 0..16 {
+        for _ in 0..32 {
             rep.add_transitions(s.calls.len() as u64);
             if solo(s) != base[i] {
                 rep.violation("C17/instance-dependent-result", format!("script '{}' gives different results on another fresh instance", s.name), cfg_replay(&[s], &[0, 0, 0], "solo"));
@@ -526,7 +535,7 @@ pub fn run(tier: Tier) -> Report {
     }
     rep.extra("synchronisation_inventory", inv);
     rep.set_rule(
-        "instances with their own histories (7 scripts of 3 calls: I/P/D, rejected mid-picture inputs, prediction without reference, both modes, all option sets): every interleaving (multiset permutation) of the calls of every pair and of triples of scripts, executed under an explicit scheduler on one thread and with one OS thread per instance (token passing); every instance's observations (Ok/Err, hash of picture+header after each call) must equal its solo run; every ordered pair of ~90 one-picture letters decoded back to back on one thread by two fresh decoders (single-call purity); first-initialisation order in fresh child processes; 16 fresh instances per script (hash seeds: sampling); free-running threads (sampling); non-trivial = every interleaving (two or more instances)",
+        "instances with their own histories (8 scripts of 3 calls: I/P/D, rejected mid-picture inputs, prediction without reference, both modes, all option sets): every interleaving (multiset permutation) of the calls of every pair and of triples of scripts, executed under an explicit scheduler on one thread and with one OS thread per instance (token passing); every instance's observations (Ok/Err, hash of picture+header after each call) must equal its solo run; every ordered pair of ~90 one-picture letters decoded back to back on one thread by two fresh decoders (single-call purity); first-initialisation order in fresh child processes; 32 fresh instances per script (hash seeds: sampling); free-running threads (sampling); non-trivial = every interleaving (two or more instances)",
     );
     rep.assume("the crates contain no lock, atomic, channel, unsafe or static mut (inventory in the evidence), so a call on one instance has no scheduling point visible to a controlled scheduler: interleavings are explored at call granularity");
     rep
